@@ -66,7 +66,7 @@ func init() {
 			"Every input is decoded in a helper process (4 GiB address space, GOMAXPROCS=1). signature = (api, version, field role, value class, outcome class); non-trivial = a mutated frame (the unmutated base frames are evaluated but not counted as distinct)",
 		Assumptions: []string{
 			"the decode entry point is protocol.ReadResponse on a bufio.Reader (what protocol.Conn hands to it), followed by reading every record of a decoded Fetch response (record sets are decoded lazily)",
-			"bytes allocated by a decode = difference of runtime/metrics /gc/heap/allocs:bytes around it in a process that runs nothing else; an excess is confirmed by a second decode between two runtime.ReadMemStats (exact, caches flushed) before it is reported; bound 1 MiB + 64 x len(frame)",
+			"bytes allocated by a decode = difference of runtime/metrics /gc/heap/allocs:bytes around it in a process that runs nothing else; an excess is confirmed by a second decode between two runtime.ReadMemStats (exact, caches flushed) before it is reported; bound 1 MiB + 256 x len(frame)",
 			"a decode that is still running after 200 ms and has by then already allocated more than the bound is reported as over-allocation (the counter is monotonic); one that does not return within 10 s without exceeding the bound is inconclusive",
 			"process death is observed under RLIMIT_AS = 4 GiB: an allocation the runtime cannot satisfy there is 'fatal error: out of memory'",
 			"stack-mode allocation bound has 16 MiB of slack for the in-process fake broker and network",
